@@ -282,6 +282,11 @@ func (r *replayer) replayViolation(hr *HarnessResult, v *Violation) (string, boo
 	os.WriteFile(path, append(b, '\n'), 0o644)
 	out, err := r.run(rc, path)
 	verdict := replayVerdict(out)
+	if verdict == "" && (v.Assert == "terminates" || v.Assert == "no-panic") &&
+		(strings.Contains(out, "fatal error: stack overflow") || strings.Contains(out, "goroutine stack exceeds") || strings.Contains(out, "panic: test timed out")) {
+		// unbounded recursion cannot be recovered in-process: the native run dies or hangs
+		verdict = "reproduced assert=" + v.Assert + " (the native process died: stack overflow or test deadline)"
+	}
 	if strings.HasPrefix(verdict, "reproduced") {
 		return path, true, verdict
 	}
